@@ -316,6 +316,39 @@ func c01gen(c *hx.Ctx, p c01params) error {
 				}
 			}
 		}
+		// a third kind, outside the ceremony: the abandoned block carries a KillTx of a validated identity that the canonical
+		// chain never mines.  A node on the side block has a smaller network than the canonical branch: everything a fork
+		// evaluation derives from the network size (minimal fee rate, fee floor of the next block) must come from the state the
+		// fork is evaluated on, not from the node's head.
+		if !p.TzScenario && n.App.State.ValidationPeriod() == 0 && r.Intn(4) == 0 {
+			var cands []int
+			for i := 2; i < len(w.Keys); i++ {
+				if st := n.App.State.GetIdentityState(w.Addrs[i]); (st == state.Verified || st == state.Human) && !h.O.Always[i] &&
+					len(n.Pool.GetPendingByAddress(w.Addrs[i])) == 0 && n.App.State.GetBalance(w.Addrs[i]).Cmp(chainfx.Dna(10)) > 0 {
+					cands = append(cands, i)
+				}
+			}
+			if len(cands) > 0 {
+				v := cands[r.Intn(len(cands))]
+				stx := h.S.Sign(n, v, &types.Transaction{Type: types.KillTx, MaxFee: chainfx.Dna(5)})
+				if n.Pool.AddExternalTxs(validation.InboundTx, stx) == nil {
+					pS, err := n.Propose()
+					n.Pool.Remove(stx)
+					h.S.Resync(n, v)
+					if err == nil && pS != nil {
+						has := false
+						for _, tx := range pS.Block.Body.Transactions {
+							has = has || tx.Hash() == stx.Hash()
+						}
+						if has {
+							raw, _ := pS.Block.ToBytes()
+							fmt.Fprintln(bf, "S "+hex.EncodeToString(raw))
+							c.Hit("side-block:kill-of-validated:period-0")
+						}
+					}
+				}
+			}
+		}
 		if err := n.Add(p1.Block); err != nil {
 			c.Fail("C01:own-block-rejected", fmt.Sprintf("height %d: %v", p1.Block.Height(), err), p)
 			return nil
@@ -522,13 +555,54 @@ func c01follow(c *hx.Ctx, p c01params) error {
 				}
 				if verr == nil || !(strings.Contains(verr.Error(), "cert is missing") || strings.Contains(verr.Error(), "should have a certificate")) {
 					sideFinished := blk.Header.Flags().HasFlag(types.ValidationFinished) // the node's own branch has already closed the epoch
-					if throughFinish && (sideCer || sideFinished) && verr != nil && strings.Contains(verr.Error(), "invalid block roots") {
+					// diagnosis: the same evaluation block by block on a fresh check state of the common block; which block is
+					// refused, and does the fork hold ceremony transactions the node's branch (common chain + side block) lacks?
+					onSide := map[common.Hash]bool{}
+					for _, tx := range blk.Body.Transactions {
+						onSide[tx.Hash()] = true
+					}
+					forkOnlyCer, failedAt, failedFlags := 0, uint64(0), types.BlockFlag(0)
+					for _, bb := range bundles {
+						for _, tx := range bb.Block.Body.Transactions {
+							if isCeremonyTx(tx.Type) && !onSide[tx.Hash()] {
+								forkOnlyCer++
+							}
+						}
+					}
+					if cs, e := n.App.ForCheckWithOverwrite(blk.Height() - 1); e == nil {
+						prev := n.Chain.GetBlockHeaderByHeight(blk.Height() - 1)
+						chainfx.SetTime(time.Unix(ahead[len(ahead)-1].Header.Time()+int64(p.SkewSec), 0))
+						for _, bb := range bundles {
+							var e2 error
+							func() {
+								defer func() {
+									if rec := recover(); rec != nil {
+										e2 = fmt.Errorf("panic: %v", rec)
+									}
+								}()
+								e2 = n.Chain.VerifC01ValidateOn(cs, bb.Block, prev)
+							}()
+							if e2 != nil {
+								failedAt, failedFlags = bb.Block.Height(), bb.Block.Header.Flags()
+								break
+							}
+							if cs.FinalizePrecommit(bb.Block) != nil {
+								break
+							}
+							prev = bb.Block.Header
+						}
+						chainfx.SetTime(time.Unix(blk.Header.Time()+int64(p.SkewSec), 0))
+					}
+					diag := fmt.Sprintf(" [re-evaluated block by block: refused at %d (flags %v); ceremony transactions of the fork that the node's branch lacks: %d; side block: %d txs, flags %v]", failedAt, failedFlags, forkOnlyCer, len(blk.Body.Transactions), blk.Header.Flags())
+					atFinish := failedAt != 0 && failedFlags.HasFlag(types.ValidationFinished)
+					if throughFinish && atFinish && (sideCer || sideFinished || forkOnlyCer > 0) && verr != nil && strings.Contains(verr.Error(), "invalid block roots") {
 						// known finding F37: the epoch is evaluated with the answers the node collected on ITS branch (the side block
-						// carries a ceremony transaction the canonical chain does not have)
-						c.Fail("C01:fork-through-validation-finished-evaluated-with-own-branch-answers", fmt.Sprintf("node on side block %d (which carries a ceremony transaction the canonical chain lacks, or is itself a validation-finishing block) evaluating the %d canonical blocks up to the validation-finishing block %d as a fork: %v",
-							blk.Height(), len(bundles), bundles[len(bundles)-1].Block.Height(), verr), p)
+						// carries a ceremony transaction the canonical chain does not have, or the fork carries ceremony transactions
+						// the node never saw on its branch, or the node has already closed the epoch)
+						c.Fail("C01:fork-through-validation-finished-evaluated-with-own-branch-answers", fmt.Sprintf("node on side block %d (whose branch and the fork differ in ceremony transactions, or which is itself a validation-finishing block) evaluating the %d canonical blocks up to the validation-finishing block %d as a fork: %v%s",
+							blk.Height(), len(bundles), bundles[len(bundles)-1].Block.Height(), verr, diag), p)
 					} else {
-						c.Fail("C01:fork-evaluated-differently-from-side-branch:"+p.Label, fmt.Sprintf("node on side block %d evaluating the %d canonical blocks from height %d as a fork: %v", blk.Height(), len(bundles), blk.Height(), verr), p)
+						c.Fail("C01:fork-evaluated-differently-from-side-branch:"+p.Label, fmt.Sprintf("node on side block %d evaluating the %d canonical blocks from height %d as a fork: %v%s", blk.Height(), len(bundles), blk.Height(), verr, diag), p)
 						return nil
 					}
 				}
